@@ -91,6 +91,9 @@ class C06(HistoryProp):
         h["cfg"]["aliases"] = ALIASES
         h["cfg"]["user_hooks"] = True
         h["cfg"]["extra_p"] = rng.choice([0.2, 0.4, 0.6])
+        # (gc / pack-refs run one ref transaction over ALL refs, the notes namespaces included: a census command in the
+        # sense of the oracle restriction stated in DESIGN §4 C06, so the maintenance steps are not drawn here)
+        h["cfg"]["maintenance"] = False
         if rng.random() < 0.25 or os.environ.get("GAISIM_C06_BOTH"):
             # the wrapper in a repository that ALSO has git-ai's managed hooks installed: the proxied git is
             # pointed at the user's own hooks directory (they still run, once; the managed ones do not run twice)
